@@ -400,3 +400,92 @@ pub struct UsesEverything {
     pub m: Mixed,
     pub o: Option<Sorted>,
 }
+
+// ------------------------------------------------------------------------------------------------ attribute positions
+// helper attributes are honoured wherever they stand among a declaration's other attributes (doc comments, lints, cfg_attr)
+
+#[derive(BinaryCodec)]
+pub struct TransientAfterDoc {
+    pub a: u8,
+    /// cached value, not part of the wire format
+    #[transient(11u32)]
+    pub t: u32,
+    pub b: String,
+}
+
+#[derive(BinaryCodec)]
+pub struct TransientAfterLint {
+    #[allow(dead_code)]
+    #[transient(String::from("lint"))]
+    pub t: String,
+    pub a: u8,
+}
+
+#[derive(BinaryCodec)]
+pub struct TransientBeforeDoc {
+    pub a: u16,
+    #[transient(false)]
+    /// documented after the helper attribute
+    #[allow(dead_code)]
+    pub t: bool,
+}
+
+#[derive(BinaryCodec)]
+#[evolution(FieldAdded("b", 5u8), FieldMadeTransient("t"))]
+pub struct TransientAfterDocEvolved {
+    pub a: u8,
+    /// dropped from the wire in version 2
+    #[allow(dead_code)]
+    #[transient(None)]
+    pub t: Option<u8>,
+    pub b: u8,
+}
+
+#[derive(BinaryCodec)]
+pub enum TransientCtorAfterDoc {
+    A,
+    /// never serialized
+    #[transient]
+    Cache(u8),
+    #[allow(dead_code)]
+    #[transient]
+    Scratch { v: String },
+    B(u8),
+}
+
+/// documentation between derive and the helper attributes
+#[derive(BinaryCodec)]
+/// more documentation
+#[allow(dead_code)]
+#[evolution(FieldAdded("c", 1u8))]
+#[allow(clippy::all)]
+pub struct EvolutionAfterDoc {
+    pub a: u8,
+    pub c: u8,
+}
+
+#[derive(BinaryCodec)]
+/// documented
+#[allow(dead_code)]
+#[sorted_constructors]
+pub enum SortedAfterDoc {
+    Zed,
+    /// never serialized
+    #[transient]
+    Mid,
+    Alpha(u8),
+}
+
+#[derive(BinaryCodec)]
+pub enum VariantAttrsAfterDoc {
+    /// documented variant
+    #[allow(dead_code)]
+    #[evolution(FieldAdded("y", 2u8))]
+    P { x: u8, y: u8 },
+    Q(
+        /// documented field
+        #[transient(9u8)]
+        u8,
+        u16,
+    ),
+}
